@@ -1,8 +1,9 @@
 #!/bin/sh
 # tools/seed_one.sh <seeded-id> : confirm one seeded change (demo + full test-suite in a scratch worktree), run its owning quick check, write meta.json
-cd /verif
+V=$(cd "$(dirname "$0")/.." && pwd)
+cd $V
 id=$1; prop=${id%%-*}
-  conf=$(tools/verify_mutant.sh /verif/seeded/$id 2>&1 | tail -1)
+  conf=$(tools/verify_mutant.sh $V/seeded/$id 2>&1 | tail -1)
   det=$(tools/mutp.sh $id $prop quick 2>&1)
   rc=$(echo "$det" | sed -n 's/.*check_rc=\([0-9]*\).*/\1/p' | head -1)
   clauses=$(echo "$det" | grep '^VIOLATION' | sed 's/.*clause=\([^ ]*\).*/\1/' | sort -u | tr '\n' ' ')
@@ -10,7 +11,7 @@ id=$1; prop=${id%%-*}
   /venv/bin/python - "$id" "$prop" "$conf" "$rc" "$clauses" <<'PY'
 import json, sys
 id_, prop, conf, rc, clauses = sys.argv[1:6]
-d = f"/verif/seeded/{id_}"
+d = f"seeded/{id_}"     # cwd is the verification tree
 readme = open(d + "/README.md").read() if __import__("os").path.exists(d + "/README.md") else ""
 json.dump(dict(id=id_, property=prop, needs_to_manifest=readme.strip()[:2000], confirmed=conf,
                ran=["tools/verify_mutant.sh: scratch worktree of /repo HEAD; demo.py on the clean tree (expect 0), with patch.diff applied (expect 1); full test-suite with the patch (expect 327 passed, 1 known failure)",
